@@ -96,7 +96,16 @@ def tool_outcomes(text, full):
 def replay_seq(item):
     i, toks, tools, full = item
     text = text_of(toks)
-    return {"i": i, "kind": "seq", "readers": read_outcomes(text), "tools": tool_outcomes(text, full) if tools else [], "text": text}
+    readers = read_outcomes(text)
+    # the same tokens as the body line of a section and of a block (readers only): other loops of the parser
+    for ctxname, pre in (("in_section", "\u00a71::S\n  "), ("in_block", "B:\n  X::1\n  ")):
+        for o in read_outcomes(pre + text + "\n"):
+            readers.append(dict(o, entry=o["entry"] + "@" + ctxname))
+    touts = tool_outcomes(text, full) if tools else []
+    if tools:
+        # the same tokens as the value of an assignment: a document the tools accept, with that value in it
+        touts += [dict(o, entry=o["entry"] + "@value") for o in tool_outcomes("===D===\nK::" + text + "\n===END===\n", False)]
+    return {"i": i, "kind": "seq", "readers": readers, "tools": touts, "text": text}
 
 
 # ---- mutations of packaged files
